@@ -81,7 +81,8 @@ CHECKS["C12"] = dict(
          "namespace-bearing stage forms x 5 nestings), the envelope walk and the grammar seeds; every state is replayed through the real "
          "CLI with and without --redactNamespaces using per-line planted names of several shapes. Verdict: whole-line absence of the "
          "planted names, functional + injective name->pseudonym mapping within and across lines with dotted structure kept, and the "
-         "diff against the flag-off run confined to the grammar's `ns` positions - three whole-line / cross-line relations.",
+         "diff against the flag-off run confined to the grammar's `ns` positions - three whole-line / cross-line relations; -w is also run together with -z and with -f (names must be gone, nothing "
+         "else may change), attr.ns must be P(db).P(coll) of the pseudonyms the line shows for $db and its collection.",
     design="5 C12", note=L3_NOTE,
     technique="TLA+ namespace generator + grammar `ns` labels (TLC) replayed on the real CLI with/without -w; absence, consistency and confinement judges")
 
@@ -119,8 +120,8 @@ CHECKS["C06"] = dict(
     level="model_checking",
     text="spec/Stream.tla models the scan loop of reader.go with one action per branch (ScanLine, SkipBlankAtMax, ParseFail, Emit, Eof ...); "
          "TLC checks OutputIsMap, NoRawCopy, OkIsComplete, AppendOnly, BarExact and termination on every sequence of line kinds up to the bound "
-         "x final newline x progress bar. Every terminal state is replayed on the real code: the real CLI over file / gzip / stdin x stdout / "
-         "--outputFile x LF / CRLF (some runs repeated) and the in-process stream entry points with 1-byte, 7-byte and unlimited read chunks; "
+         "x final newline x progress bar. Every terminal state is replayed on the real code: the real CLI over file / gzip / multi-member gzip / stdin x stdout / "
+         "--outputFile (also over an older, longer file) x LF / CRLF (some runs repeated), long logs of thousands of lines with lines just below the scanner limit, and the in-process stream entry points with 1-byte, 7-byte and unlimited read chunks; "
          "the bytes must equal the concatenation of what each line yields when run alone through the CLI. The recorded executions (one event "
          "per Write call / output line) are validated as behaviours of Stream by TLC (StreamTrace.tla). A relation over sequences and channel "
          "combinations, which single-line fixtures cannot reach.",
@@ -142,11 +143,11 @@ CHECKS["C07"] = dict(
 CHECKS["C08"] = dict(
     level="model_checking",
     text="Stream.tla with the fault environment: the k-th output write fails or is short, reading fails in front of / inside line i or at the very "
-         "end; TLC checks FailureReported, PrefixOfFaultFree, OkIsComplete and termination for every line sequence x every fault position. Every "
+         "end, each persistently or once (a transient fault); TLC checks FailureReported, PrefixOfFaultFree, OkIsComplete and termination for every line sequence x every fault position. Every "
          "terminal state is replayed in-process with exact k-th-call fault injection around the repository's stream entry points and judged (fault "
          "happened => failure returned; bytes written are a prefix of the fault-free output ending on a line boundary); the executions are "
          "trace-validated against the spec; gzip streams are cut / flipped / read-failed at byte offsets; the real CLI runs against /dev/full "
-         "(stdout and --outputFile), a closed pipe, cut and CRC-damaged .gz files and strace-injected ENOSPC.",
+         "(stdout and --outputFile), a closed pipe, cut and CRC-damaged .gz files, strace-injected ENOSPC, and Atlas mode with a damaged download at host k of n.",
     design="5 C08", note=L2_NOTE,
     technique="TLC-enumerated fault positions replayed with exact fault injection in-process; trace validation; gzip damage at byte offsets; real devices and strace injection through the CLI")
 
@@ -154,8 +155,8 @@ CHECKS["C11"] = dict(
     level="model_checking",
     text="spec/KeyFile.tla: one action per step of the key stage and of a run (CreateOut, StatKey, Generate, WriteKey, ReadKey, WriteCipherLine, "
          "ExitOk, AbortMidRun, NextRun with an environment that may put any other state at the path); TLC checks NeverOverwrite, CreateOnce, "
-         "KeyBeforeCiphertext, UnusableRefused, ReadBack, SuccessHasKey over all 10 initial states x every sequence of runs (good input / input "
-         "failing part-way x environment change). Every behaviour is replayed through the real CLI as an unprivileged user with real files; after "
+         "KeyBeforeCiphertext, UnusableRefused, ReadBack, SuccessHasKey over all 11 initial states (incl. a symlinked key) x every sequence of runs (input with a leading line that holds "
+         "nothing to encrypt / input failing part-way / input with nothing to encrypt at all x environment change), plus strace-injected faults at the key-file write. Every behaviour is replayed through the real CLI as an unprivileged user with real files; after "
          "every run key-file bytes, mode, exit status and output are judged, every ciphertext is decrypted with the real Decrypt under the key on "
          "disk, generated keys are compared pairwise; strace'd runs are validated as KeyFile behaviours (KeyFileTrace), observing that the key "
          "reaches the disk before the first ciphertext.",
@@ -167,7 +168,8 @@ CHECKS["C18"] = dict(
     text="spec/Cli.tla: one action per validation check of main.go in code order, then the side effects in code order; TLC checks all 2^13 switch "
          "combinations against a three-valued rule table written from the README and the statement (AcceptIffWellDefined, RejectionIsPure, "
          "RunsItsSource, EffectOrder, Decides). All 8192 combinations are replayed through the real CLI in private directories with a fake Atlas "
-         "endpoint behind HTTPS_PROXY as network witness (thorough: again with a pre-existing output file and key file); exit status, message, "
+         "endpoint behind HTTPS_PROXY as network witness (thorough: again with a pre-existing output file and key file; combinations with stdin also with stdin redirected "
+         "from a regular file); the composition Cli -> KeyFile -> Stream (spec/Run.tla) is model-checked for cross-module invariants; exit status, message, "
          "directory snapshot, CONNECT log and output are judged against the rule table; strace'd runs (order of output creation, key stage, "
          "network / input access, exit) are validated as behaviours of Cli (CliTrace).",
     design="5 C18", note="Trusted: TLC, the rule table (spec/Cli.tla MustReject / Either, mirrored in checks/c18.py and cross-checked), lib/fakeatlas.py as "
@@ -184,7 +186,8 @@ CHECKS["C16"] = dict(
     text="spec/Atlas.tla: one action per HTTP exchange (unauthenticated round, digest response, transport retry, response) and per file-system step "
          "(temp file, body copy, registration, per-file output and redaction, clean-up); TLC checks RequestsExact, OutIndexIsHost, SuccessIsComplete "
          "for 1..5 hosts. The fault-free terminal states are replayed through the unmodified CLI behind the fake endpoint and through the library with "
-         "many concretisations (ports, empty / multi-member archives, window given / default, five flag sets incl. --encrypt): CONNECT only to "
+         "many concretisations (ports, empty / multi-member archives, chunked responses, a download that breaks off once, window given / default - "
+         "also in a local zone with a recent UTC-offset change, five flag sets incl. --encrypt): CONNECT only to "
          "cloud.mongodb.com:443, one authenticated request per host in connection-string order, project / host / window in every URL, bytes stored "
          "verbatim, <out>.<i> byte-identical to the CLI's redaction of archive i; request histories validated against the spec (AtlasTrace).",
     design="5 C16", note=ATLAS_NOTE,
@@ -194,7 +197,7 @@ CHECKS["C17"] = dict(
     level="model_checking",
     text="spec/Atlas.tla with the fault environment: TLC checks NoTempAtExit and termination for 1..4 hosts x failing position x fault kind (HTTP "
          "status, reset before headers, body cut after j bytes, payload not gzip, over-long line, damaged archive, output path that cannot be "
-         "created) + success, at CLI and library level. Every terminal state is replayed (several concretisations; thorough: every cut offset) with a "
+         "created, or created but not written; --encrypt with an unusable key file: KeyStageFirst) + success, at CLI and library level. Every terminal state is replayed (several concretisations; thorough: every cut offset) with a "
          "private TMPDIR that is listed at every request - while the client is blocked - and after the process has gone; verdict: the directory is "
          "empty at the end; the (request, temp-count) histories are validated as Atlas behaviours by TLC (AtlasTrace).",
     design="5 C17", note=ATLAS_NOTE,
@@ -206,7 +209,8 @@ CHECKS["C20"] = dict(
          "behaviours (digest, no challenge, Basic, unparseable Digest challenge, 401 after a correct response) x fault positions. Every terminal state "
          "is replayed through the unmodified CLI (key by flag / environment / mixed; keys with URL- / base64-sensitive and non-ASCII characters) and "
          "the library; every artefact (request heads, CONNECT, stdout, stderr, output / temp / other files, returned errors) is scanned for the key "
-         "verbatim and in nine encodings incl. Basic; Authorization must be a digest response that verifies against the key, and absent without a "
+         "verbatim and in nine encodings incl. Basic (key pairs of several shapes incl. service-account style); runs that end in a usage / help / "
+         "rejection print are scanned too; Authorization must be a digest response that verifies against the key, and absent without a "
          "Digest challenge.",
     design="5 C20", note=ATLAS_NOTE,
     technique="TLC-enumerated server behaviours x faults replayed on the unmodified CLI / library; whole-artefact scan for the key in several encodings; server-side digest verification")
